@@ -17,7 +17,10 @@ RULE = ("random walks (<= 60 steps quick / <= 240 thorough) over a pool of <= 6 
         "to_string x4, verify, sign, key ==); exhaustive sequences of length <= 3 over 8 operations on the prime-order toy "
         "curve p=11; pools also hold user-made twins of a point with the same Z and unreduced / negative coordinates and objects on "
         "equal-but-distinct curve objects (CurveFp without cofactor, pickled CurveFp) with ==, !=, `in`, +, mul_add, key == across "
-        "them; every new point object must carry the declared order of the point(s) it was computed from (PointJacobi "
+        "them; key-export histories (search only: ONE VerifyingKey / SigningKey loaded from point, exponent, bytes in 4 encodings, DER, PEM "
+        "through bytes / bytearray / memoryview / array buffers; the caller overwrites the buffer; repeated to_string / to_der / "
+        "to_pem under varying format and point encoding, pickle, deepcopy, ==, sign, verify, precompute - each output compared with "
+        "a fresh equal key's); every new point object must carry the declared order of the point(s) it was computed from (PointJacobi "
         "arithmetic, to_affine, from_affine, copies, a key's point); object turnover (keys / generator-flagged points created, used and dropped in a loop so that addresses are "
         "re-used); distinct = distinct history line; non-trivial = the history mutates hidden state at least once")
 EXTRA_PROPS = ["C19g"]   # RepIndep discharged for Model/Curve.lean from C06/C07 (Proofs/GroupInterface.lean)
@@ -36,6 +39,10 @@ ASSUMPTIONS = [
     "INFINITY and its pickled/copied twins only (all the library's arithmetic returns). User-built identity-valued "
     "PointJacobi objects (Y = 0 or Z = 0) in the heap are outside the C19 theorems (value level: C06/C07 PJRep0) and are met "
     "by the walks only on the curves with a point of order 2 (K1 domain)",
+    "key-export histories (serialisation caches, the caller's buffer a key was loaded from, to_der/to_pem, deepcopy) are a "
+    "search-only stream: the model's keys hold a point value and nothing else; from_pem is given bytes/bytearray only "
+    "(memoryview / array are not among its documented argument types); == is not judged after the key was replaced by its "
+    "pickled / deep-copied twin (Curve has no __eq__, see above)",
     "step_refines covers all 24 modelled operations (incl. mul_add and verifies) except arithmetic whose operands are all "
     "legacy Points (immutable objects, no hidden state); those are corresponded and searched only",
 ]
@@ -94,6 +101,7 @@ class Walk:
         # equal-but-distinct curve OBJECTS of the walk's curve: declared by a user without the cofactor ("h0"), and a pickled
         # copy ("hp").  Points on them are points of the same curve (CurveFp.__eq__ compares p, a, b): same value semantics.
         self.alt = {"h0": E.CurveFp(p, a, b), "hp": pickle.loads(pickle.dumps(self.fp))}
+        self.misdeclared = set()   # pool indices of results whose inherited declared order is not a multiple of their order
         self.ords = []       # per pool object: declared order of a point object (None for others)
         self.kord = {}       # per key pool index: declared order of the point the key was built from
         self.kinfo = {}      # per key / signing-key pool index: value G and declared order n of its generator, its curve
@@ -145,6 +153,12 @@ class Walk:
         self.vals.append(val)
         self.tags.append(tag if val[0] == "pt" else None)
         self.ords.append(o)
+        if o and val[0] == "pt" and val[1] is not None and self.p < 5000:
+            # the result inherited a declared order that does not annihilate it (P + Q with Q outside the subgroup of that
+            # order: only on the curves with composite group order): a mis-declared object - multiples are reduced modulo an
+            # order that is not the point's (C07: "the declared order annihilates every point taking part" is necessary)
+            if R.mul(self.cvs[tag or 0], val[1], o) is not None:
+                self.misdeclared.add(len(self.pool) - 1)
         return "+%d" % (len(self.pool) - 1)
 
     def ordset(self, *ts):
@@ -778,7 +792,7 @@ def random_walk(ctx, cvspec, steps, named=None):
     pt_ops = ["x", "y", "order", "scale", "toaff", "fromaff", "neg", "dbl", "add", "add", "mul", "mul", "muladd", "eq", "eq", "pickle", "copy", "raw", "raw"]
     key_ops = ["keypoint", "keyprecompute", "keyser", "keyverify", "keyeq", "pickle", "raw", "keyverify"]
     for _ in range(steps):
-        live = w.live()
+        live = [i for i in w.live() if i not in w.misdeclared]      # (mis-declared results are not used any further)
         kinds = {i: w.kind(i) for i in live}
         pts = [i for i in live if kinds[i] in ("J", "A")]
         ids = [i for i in live if kinds[i] == "I"]
@@ -1195,6 +1209,231 @@ def turnover_fails(spec):
     return None
 
 
+# ------------------------------------------------------------------------------------------------ key exports / caller's buffers
+# ONE key object over a history of exports, uses and changes made by the caller to the buffer the key was loaded from.  The
+# value of a key is fixed when it is built: (x, y) of its point resp. d.  After every step the output is compared with the
+# output of the same call on a FRESH equal key (built from that value by from_public_point / from_secret_exponent, never used
+# before) and, for to_string, with the reference encoding.  This stream is search only: `Model/PointObj.lean` keys hold a
+# point value, no serialisation cache and no reference to a caller's buffer exist there (to_der / to_pem values are C09's).
+KEX_ENC = ["raw", "uncompressed", "compressed", "hybrid"]
+KEX_BUF = ["bytes", "bytearray", "memoryview", "array"]
+
+
+def _kex_curve(name):
+    from ecdsa import curves
+    return [c for c in curves.curves if c.name == name][0]
+
+
+def _kex_buf(kind, data):
+    """(object handed to the loader, the mutable store behind it or None)"""
+    import array
+    if kind == "bytes":
+        return bytes(data), None
+    if kind == "bytearray":
+        b = bytearray(data)
+        return b, b
+    if kind == "memoryview":
+        b = bytearray(data)
+        return memoryview(b), b
+    a = array.array("B", data)
+    return a, a
+
+
+def kex_run(h):
+    """None, or the first departure {step, op, got, want}.  h = {"curve": name, "d": d, "load": [...], "ops": [...]}"""
+    import copy as _copy
+    from ecdsa.keys import SigningKey, VerifyingKey
+    from ecdsa.ecdsa import Signature
+    crv = _kex_curve(h["curve"])
+    n = int(crv.order)
+    d = h["d"]
+    if not 1 <= d < n:
+        raise BadHistory("d out of range")
+    G = (int(crv.generator.x()), int(crv.generator.y()))
+    cv = (int(crv.curve.p()), int(crv.curve.a()), int(crv.curve.b()))
+    Q = R.mul(cv, G, d)
+    l = (len("%x" % cv[0]) + 1) // 2
+    ref = lambda enc: {"raw": b"", "uncompressed": b"\x04", "compressed": bytes([2 + (Q[1] & 1)]), "hybrid": bytes([6 + (Q[1] & 1)])}[enc] + \
+        Q[0].to_bytes(l, "big") + (b"" if enc == "compressed" else Q[1].to_bytes(l, "big"))   # noqa: E731
+
+    def fresh_sk():
+        return SigningKey.from_secret_exponent(d, crv)
+
+    def fresh_vk():
+        from ecdsa import ellipticcurve as E
+        return VerifyingKey.from_public_point(E.PointJacobi(crv.curve, Q[0], Q[1], 1, n), crv)
+    load = h["load"]
+    kind = load[0]
+    store = None
+    try:
+        if kind == "vk-point":
+            key = fresh_vk()
+        elif kind == "vk-string":
+            obj, store = _kex_buf(load[2], ref(load[1]))
+            key = VerifyingKey.from_string(obj, crv)
+        elif kind in ("vk-der", "vk-pem"):
+            data = fresh_vk().to_der(load[1]) if kind == "vk-der" else fresh_vk().to_pem(load[1])
+            obj, store = _kex_buf(load[2], data)
+            key = (VerifyingKey.from_der if kind == "vk-der" else VerifyingKey.from_pem)(obj)
+        elif kind == "sk-exp":
+            key = fresh_sk()
+        elif kind == "sk-string":
+            obj, store = _kex_buf(load[1], fresh_sk().to_string())
+            key = SigningKey.from_string(obj, crv)
+        elif kind in ("sk-der", "sk-pem"):
+            data = fresh_sk().to_der(load[1], load[2]) if kind == "sk-der" else fresh_sk().to_pem(load[1], load[2])
+            obj, store = _kex_buf(load[3], data)
+            key = (SigningKey.from_der if kind == "sk-der" else SigningKey.from_pem)(obj)
+        else:
+            raise BadHistory("unknown loader %r" % (kind,))
+    except BadHistory:
+        raise
+    except Exception as e:                                       # noqa: BLE001
+        return {"step": 0, "op": load, "got": "loader raised %s: %s" % (type(e).__name__, str(e)[:80]), "want": "a key"}
+    is_sk = kind.startswith("sk")
+    restored = False
+    for i, op in enumerate(h["ops"]):
+        o = op[0]
+        if o not in ("mutate", "vk_string", "vk_der", "vk_pem", "sk_string", "sk_der", "sk_pem", "pickle", "copy", "verify", "sign",
+                     "eq", "precompute") or (o.startswith("sk_") or o == "sign") and not is_sk:
+            raise BadHistory("unknown or misplaced operation %r" % (op,))
+        vk = (lambda k: k.verifying_key if is_sk else k)
+        try:
+            if o == "mutate":
+                if store is not None:
+                    # the caller re-uses its buffer: zeroes, or the encoding of another key of the same length
+                    other = SigningKey.from_secret_exponent(1 + (d + op[1]) % (n - 1), crv)
+                    src = other.to_string() if is_sk else other.verifying_key.to_string()
+                    for j in range(len(store)):
+                        store[j] = 0 if op[2] else src[j % len(src)]
+                continue
+            if o == "vk_string":
+                got, want = vk(key).to_string(op[1]), ref(op[1])
+                want2 = fresh_vk().to_string(op[1])
+                if want != want2:
+                    return {"step": i + 1, "op": op, "got": "fresh key: " + want2.hex(), "want": want.hex()}
+            elif o == "vk_der":
+                got, want = vk(key).to_der(op[1]), fresh_vk().to_der(op[1])
+            elif o == "vk_pem":
+                got, want = vk(key).to_pem(op[1]), fresh_vk().to_pem(op[1])
+            elif o == "sk_string":
+                got, want = key.to_string(), d.to_bytes(len(fresh_sk().to_string()), "big")
+            elif o == "sk_der":
+                got, want = key.to_der(op[1], op[2]), fresh_sk().to_der(op[1], op[2])
+            elif o == "sk_pem":
+                got, want = key.to_pem(op[1], op[2]), fresh_sk().to_pem(op[1], op[2])
+            elif o in ("pickle", "copy"):
+                key2 = pickle.loads(pickle.dumps(key)) if o == "pickle" else _copy.deepcopy(key)
+                got = vk(key2).to_string("uncompressed") + (key2.to_string() if is_sk else b"")
+                want = ref("uncompressed") + (fresh_sk().to_string() if is_sk else b"")
+                if op[1]:
+                    key = key2                                   # go on with the restored key
+                    restored = True
+            elif o == "sign":
+                kk = 1 + op[2] % (n - 1)
+                a, b = key.privkey.sign(op[1], kk), fresh_sk().privkey.sign(op[1], kk)
+                got, want = b"%d,%d" % (a.r, a.s), b"%d,%d" % (b.r, b.s)
+            elif o == "verify":
+                kk = 1 + op[2] % (n - 1)
+                try:
+                    sg = fresh_sk().privkey.sign(op[1], kk)
+                    sg = Signature(sg.r, (sg.s + op[3]) % n)
+                except Exception:                                # noqa: BLE001 - r = 0 or s = 0 for this nonce: nothing to verify
+                    continue
+                got = b"T" if vk(key).pubkey.verifies(op[1], sg) else b"F"
+                want = b"T" if fresh_vk().pubkey.verifies(op[1], sg) else b"F"
+                if (want == b"T") != (op[3] % n == 0):
+                    return {"step": i + 1, "op": op, "got": "fresh key says " + want.decode(), "want": "valid iff untouched"}
+            elif o == "eq":
+                if restored:
+                    continue          # curves.Curve has no __eq__: a restored key's Curve object is a copy, key == is False (ASSUMPTIONS)
+                got = b"T" if (key == (fresh_sk() if is_sk else fresh_vk())) else b"F"
+                want = b"T"
+            else:
+                vk(key).precompute(lazy=bool(op[1]))
+                continue
+        except BadHistory:
+            raise
+        except Exception as e:                                   # noqa: BLE001
+            return {"step": i + 1, "op": op, "got": "%s: %s" % (type(e).__name__, str(e)[:80]), "want": "no exception"}
+        if bytes(got) != bytes(want):
+            return {"step": i + 1, "op": op, "got": bytes(got).hex()[:200], "want": bytes(want).hex()[:200]}
+    return None
+
+
+def kex_histories(ctx):
+    rng = ctx.rng
+    names = ["NIST192p", "SECP112r1", "SECP112r2", "NIST256p"]
+    out = []
+    fmts = ["ssleay", "pkcs8"]
+    encs = KEX_ENC[1:]
+    # directed: every loader with every kind of buffer, the buffer overwritten, then everything exported twice
+    for name in names[:2]:
+        n = int(_kex_curve(name).order)
+        d = rng.randrange(1, n)
+        for buf in KEX_BUF:
+            for enc in KEX_ENC:
+                out.append({"curve": name, "d": d, "load": ["vk-string", enc, buf], "ops": [["vk_string", "raw"], ["mutate", 1, 0]] +
+                            [["vk_string", e] for e in KEX_ENC] + [["vk_der", "compressed"], ["vk_pem", "uncompressed"], ["pickle", 0], ["copy", 0],
+                                                                     ["eq"], ["verify", 5, 3, 0], ["mutate", 2, 1], ["vk_string", "raw"], ["pickle", 1], ["vk_string", "raw"]]})
+            out.append({"curve": name, "d": d, "load": ["sk-string", buf], "ops": [["sk_string"], ["mutate", 1, 0], ["sk_string"], ["vk_string", "raw"],
+                                                                                   ["sk_der", "uncompressed", "ssleay"], ["pickle", 0], ["eq"], ["sign", 7, 5], ["mutate", 1, 1], ["sk_string"], ["pickle", 1], ["sk_string"]]})
+            out.append({"curve": name, "d": d, "load": ["vk-der", "compressed", buf], "ops": [["mutate", 1, 1], ["vk_der", "compressed"], ["vk_string", "raw"], ["pickle", 0]]})
+            if buf in ("memoryview", "array"):
+                continue      # from_pem takes str / bytes-like with .find: memoryview and array are not accepted (AttributeError, documented types)
+            out.append({"curve": name, "d": d, "load": ["sk-pem", "hybrid", "pkcs8", buf], "ops": [["mutate", 1, 0], ["sk_pem", "hybrid", "pkcs8"], ["sk_string"], ["pickle", 0]]})
+        # repeated exports of ONE key object under every (format, point_encoding) pair, both orders
+        pairs = [(e, f) for f in fmts for e in encs]
+        for order in (pairs, pairs[::-1], pairs[1::2] + pairs[::2]):
+            ops = []
+            for (e, f) in order:
+                ops += [["sk_der", e, f], ["sk_pem", e, f]]
+            out.append({"curve": name, "d": d, "load": ["sk-exp"], "ops": ops + ops[::-1] + [["sk_string"], ["vk_string", "raw"]]})
+        vops = [["vk_string", e] for e in KEX_ENC] + [["vk_der", e] for e in encs] + [["vk_pem", e] for e in encs]
+        out.append({"curve": name, "d": d, "load": ["vk-point"], "ops": vops + vops[::-1] + [["precompute", 1]] + vops})
+    # random
+    for _ in range(60 if ctx.quick else 1500):
+        name = rng.choice(names)
+        n = int(_kex_curve(name).order)
+        d = rng.choice([1, 2, n - 1, rng.randrange(1, n), rng.randrange(1, n)])
+        buf = rng.choice(KEX_BUF)
+        load = rng.choice([["vk-point"], ["vk-string", rng.choice(KEX_ENC), buf], ["vk-string", "raw", buf], ["vk-der", rng.choice(encs), buf],
+                           ["vk-pem", rng.choice(encs), buf], ["sk-exp"], ["sk-string", buf], ["sk-der", rng.choice(encs), rng.choice(fmts), buf],
+                           ["sk-pem", rng.choice(encs), rng.choice(fmts), buf]])
+        if load[0].endswith("pem") and load[-1] in ("memoryview", "array"):
+            load[-1] = "bytearray"
+        is_sk = load[0].startswith("sk")
+        ops = []
+        for _ in range(rng.randrange(3, 14)):
+            c = [["mutate", rng.randrange(1, 50), rng.randrange(2)], ["vk_string", rng.choice(KEX_ENC)], ["vk_der", rng.choice(encs)],
+                 ["vk_pem", rng.choice(encs)], ["pickle", rng.randrange(2)], ["copy", rng.randrange(2)], ["eq"],
+                 ["verify", rng.randrange(1, 2 ** 64), rng.randrange(1, 2 ** 64), rng.choice([0, 0, 1])], ["precompute", rng.randrange(2)]]
+            if is_sk:
+                c += [["sk_string"], ["sk_der", rng.choice(encs), rng.choice(fmts)], ["sk_pem", rng.choice(encs), rng.choice(fmts)],
+                      ["sk_der", rng.choice(encs), rng.choice(fmts)], ["sign", rng.randrange(1, 2 ** 64), rng.randrange(1, 2 ** 64)]]
+            ops.append(rng.choice(c))
+        out.append({"curve": name, "d": d, "load": load, "ops": ops})
+    return out
+
+
+def kex_shrink(h):
+    """drop operations one at a time while the history still fails"""
+    cur = dict(h)
+    bad = kex_run(cur)
+    cur["ops"] = cur["ops"][:bad["step"]] if bad and bad["step"] else cur["ops"]
+    changed = True
+    while changed:
+        changed = False
+        for k in range(len(cur["ops"]) - 1, -1, -1):
+            h2 = dict(cur, ops=cur["ops"][:k] + cur["ops"][k + 1:])
+            try:
+                if kex_run(h2) is not None:
+                    cur, changed = h2, True
+            except Exception:                                    # noqa: BLE001
+                pass
+    return cur
+
+
 # ------------------------------------------------------------------------------------------------ stages
 def correspond(ctx):
     c = Corr(ctx, "object-history")
@@ -1266,6 +1505,19 @@ def search(ctx):
             ctx.violation({"input": {"turnover": dict(spec)}, "observed": bad,
                            "expected": "an object built after others were used and dropped has the value it was built with"})
             nviol += 1
+    nk = 0
+    for h in kex_histories(ctx):
+        n += 1
+        nk += 1
+        bad = kex_run(h)
+        ctx.hist("search", "keyexport-" + h["load"][0], 1)
+        if bad is not None and nviol < 3:
+            small = kex_shrink(h)
+            ctx.violation({"input": {"keyhist": small}, "observed": kex_run(small) or bad, "original_length": len(h["ops"]),
+                           "shrunk_length": len(small["ops"]),
+                           "expected": "every export / use of a key equals that of a fresh key with the value this key was built with"})
+            nviol += 1
+    ctx.hist("search", "keyexport-histories", nk)
     ctx.hist("search", "K1-instances", nk1)
     ctx.hist("search", "histories", n)
     ctx.hist("search", "steps", sum(w.steps for (_, w, _) in walks))
@@ -1277,6 +1529,11 @@ def replay(rec):
     i = rec.get("input")
     if not isinstance(i, dict):
         return None
+    if "keyhist" in i:
+        k = i["keyhist"]
+        if not (isinstance(k, dict) and all(x in k for x in ("curve", "d", "load", "ops"))):
+            return None
+        return kex_run(k) is not None
     if "turnover" in i:
         t = i["turnover"]
         if not (isinstance(t, dict) and all(k in t for k in ("curve", "G", "n", "count", "kind"))):
